@@ -69,6 +69,12 @@ class AcAbilityRequest(comms.Message):
 
 _STRUCT = struct.Struct("!BB16sBBBBBBBB")
 
+_FOLLOWING_LENGTH = 24
+"""Number of bytes following the "following data length" field for each AC.
+
+As per the communication protocol (24 at this moment). Newer console versions
+may announce more bytes per AC."""
+
 
 class AcAbilityEncoder(
     comms.MessageEncoder[
@@ -104,7 +110,7 @@ class AcAbilityEncoder(
 
         buffer = bytearray()
         for ac in message.ac_abilities:
-            following_length = 24  # As per communication protocol
+            following_length = _FOLLOWING_LENGTH
             encoded_ac_name = ac.ac_name.encode(encoding=encoding.STRING_ENCODING)
             b23 = self._encode_mode_support(ac.ac_mode_support)
             b24 = self._encode_fan_speed_support(ac.fan_speed_support)
@@ -181,17 +187,12 @@ class AcAbilityDecoder(
             )
 
         # Otherwise decode ability information for one or more ACs:
-        if header.message_length % _STRUCT.size != 0:
-            raise comms.DecodeError(
-                f"Data length ({header.message_length}) is not a multiple of "
-                f"AC Ability information length ({_STRUCT.size})"
-            )
-
         ac_abilities: list[AcAbility] = []
-        for _ in range(header.message_length // _STRUCT.size):
+        offset = 0
+        while offset < header.message_length:
             (
                 ac_number,
-                _,  # Following length
+                following_length,
                 ac_name_raw,
                 start_zone,
                 zone_count,
@@ -201,8 +202,16 @@ class AcAbilityDecoder(
                 max_cool_set_point,
                 min_heat_set_point,
                 max_heat_set_point,
-            ) = _STRUCT.unpack_from(buffer)
-            buffer = buffer[_STRUCT.size :]
+            ) = _STRUCT.unpack_from(buffer, offset)
+            if following_length < _FOLLOWING_LENGTH:
+                raise comms.DecodeError(
+                    f"AC Ability following length ({following_length}) is less "
+                    f"than the minimum ({_FOLLOWING_LENGTH})"
+                )
+            # The following length counts the bytes after the AC number and the
+            # following length fields. Using it to locate the next AC allows
+            # records extended by newer console versions to be decoded.
+            offset += (_STRUCT.size - _FOLLOWING_LENGTH) + following_length
 
             ac_abilities.append(
                 AcAbility(
@@ -219,9 +228,14 @@ class AcAbilityDecoder(
                 )
             )
 
+        if offset != header.message_length:
+            raise comms.DecodeError(
+                f"AC Ability decoded {offset} bytes out of {header.message_length}"
+            )
+
         return comms.MessageDecodeResult(
             message=AcAbilityMessage(ac_abilities=ac_abilities),
-            remaining=buffer,
+            remaining=buffer[offset:],
         )
 
     def _decode_ac_mode_support(self, byte23: int) -> Mapping[AcModeControl, bool]:
